@@ -82,9 +82,7 @@ def main(argv=None):
             if props_ok:
                 try:
                     ctx.theorems = core.audit(prop)
-                except core.EnoughFailures:
-        ctx.note('exploration stopped early: enough failing inputs recorded')
-    except core.LeanError as e:
+                except core.LeanError as e:
                     print(e, file=sys.stderr)
                     return 2
                 bad = {t: [x for x in axs if x not in core.ALLOWED_AXIOMS] for t, axs in ctx.theorems.items()}
@@ -115,6 +113,8 @@ def main(argv=None):
                     print(f'replay: case no longer fails')
         else:
             mod.run(ctx)
+    except core.EnoughFailures:
+        ctx.note('exploration stopped early: enough failing inputs recorded')
     except core.LeanError as e:
         print(f'driver problem: {e}', file=sys.stderr)
         if model_ok:
